@@ -290,6 +290,12 @@ UNIT = {
             'closures': {0: {'rewrite': 'and-then-to-match'}}}),
         (STATE, ['impl GrandState', 'fn current_state'], {'ret': 'r', 'ensures': ['*r == self.cur()']}),
         (STATE, ['impl GrandState', 'fn parent_state'], {'ret': 'r', 'ensures': ['(match r { Some(p) => Some(*p), None => None::<TrapState> }) == self.parent()']}),
+        # get_state: what is known about a condition - its current state and the state remembered from before the subshell entry
+        (TRAP, ['impl TrapSet', 'fn get_state_impl'], {'ret': 'r',
+            'ensures': [
+                '!self.tab().contains_key(cond) ==> r.0 is None && r.1 is None',
+                'self.tab().contains_key(cond) ==> (r.0 matches Some(c) && *c == self.tab()[cond].cur()) && (match r.1 { Some(p) => Some(*p), None => None::<TrapState> }) == self.tab()[cond].parent()',
+            ]}),
         # `trap -p` / peek_state: looking at a condition may create its record from what the system has installed, and changes nothing else
         (TRAP, ['impl TrapSet', 'fn peek_state_impl'], {'ret': 'r',
             'ensures': [
